@@ -226,7 +226,7 @@ func ObjIs(o types.Object, pkgSuffix, name string) bool {
 			return false
 		}
 		p := o.Pkg().Path()
-		if p != pkgSuffix && !strings.HasSuffix(p, "/"+pkgSuffix) {
+		if p != pkgSuffix && !strings.HasSuffix(p, "/"+pkgSuffix) && o.Pkg().Name() != pkgSuffix {
 			return false
 		}
 	}
@@ -392,4 +392,22 @@ func Method(pkgs map[string]*packages.Package, t *types.Named, m string) *Fn {
 		}
 	}
 	return nil
+}
+
+// EnclosingCase returns the innermost case clause containing n.
+func EnclosingCase(root ast.Node, n ast.Node) *ast.CaseClause {
+	var best *ast.CaseClause
+	ast.Inspect(root, func(x ast.Node) bool {
+		if x == nil {
+			return true
+		}
+		if x.Pos() > n.Pos() || x.End() < n.End() {
+			return false
+		}
+		if cc, ok := x.(*ast.CaseClause); ok {
+			best = cc
+		}
+		return true
+	})
+	return best
 }
